@@ -63,7 +63,7 @@ def prepare(tier: str, root: pathlib.Path, optnames: typing.Sequence[str], metad
             SVC_OF[t.response_type.full_name] = t
         else:
             flat.append(t)
-    _CTX.update(root=root, gens=gens, feats=feats)
+    _CTX.update(root=root, gens=gens, feats=feats, tier=tier)
     return flat, feats
 
 
@@ -75,14 +75,25 @@ def is_cpp(on: str) -> bool:
     return OPTSETS[on].get("lang") == "cpp"
 
 
+class NotCovered(Exception):
+    pass
+
+
 def unit_for(t: pydsdl.CompositeType, on: str, variant: str) -> codec.TypeUnit:
     root = _CTX["root"]
+    if is_cpp(on):
+        from llsym import cppunit
+        if cppunit.has_bool_array(t):
+            raise NotCovered("C++ bit arrays (std::bitset / std::vector<bool>) are not covered: word-level bit code exceeds the budget")
     work = root / f"work_{on.replace('+', '_')}_{variant}_{os.getpid()}"
     if is_cpp(on):
         from llsym import cppunit
         # C++ is executed on -O1 IR only (the -O0 IR of the standard library is not inlined and far outside the budget)
-        return cppunit.CppTypeUnit(t, root / "gen_default", _CTX["gens"][on], work, "B", OPTSETS[on]["std"], defines_for(on))
-    return codec.TypeUnit(t, _CTX["gens"][on], work, variant, defines_for(on))
+        tu = cppunit.CppTypeUnit(t, root / "gen_default", _CTX["gens"][on], work, "B", OPTSETS[on]["std"], defines_for(on))
+    else:
+        tu = codec.TypeUnit(t, _CTX["gens"][on], work, variant, defines_for(on))
+    tu.budget_s = 300.0 if _CTX.get("tier", "quick") == "quick" else 2400.0      # per run; exceeding it is inconclusive, never a pass
+    return tu
 
 
 def des_lengths(t: pydsdl.CompositeType, tier: str) -> typing.List[int]:
